@@ -173,6 +173,21 @@ class C20(Prop):
                     blk = (ba if t == "A" else bb).pop(0)
                     lines += ["%s %s" % (t, s) for s in blk]
             scripts.append(("sched%d_%d_%s" % (seed, k, "ov" if overlap else "no"), lines))
+        # a scoped transaction handed to the other thread: opened (ctx.new_transaction()) by one thread, closed by the
+        # other while the opener waits - brackets never overlap, the close simply happens on another thread
+        for k in range(max(4, n // 4)):
+            lines = ["interleaving"]
+            for j in range(rng.randint(1, 4)):
+                a, b = rng.choice(["AB", "BA", "AA", "BB"])
+                kind = rng.random()
+                if kind < 0.6:
+                    lines.append("%s topen %d" % (a, j))
+                    for _ in range(rng.randint(1, 2)):
+                        lines.append("%s send %d" % (a, rng.randint(1, 50)))
+                    lines.append("%s tclose %d" % (b, j))
+                else:
+                    lines += ["%s {" % a] + ["%s send %d" % (a, rng.randint(1, 50)) for _ in range(rng.randint(1, 2))] + ["%s }" % a]
+            scripts.append(("handoff%d_%d" % (seed, k), lines))
         yield Batch("thr-run", scripts, "schedule-replay", timeout=600)
         st = []
         for k in range(4 if tier == "quick" else 40):
@@ -188,12 +203,14 @@ class C20(Prop):
             w = l.split()
             if len(w) < 2:
                 continue
-            if w[1] == "{":
+            if w[1] in ("{", "topen"):
                 if depth > 0 and owner != w[0]:
                     return True
                 if depth == 0:
                     owner = w[0]
                 depth += 1
+            elif w[1] == "tclose":
+                depth -= 1          # a handed-over scoped transaction may be closed by the other thread
             elif w[1] == "}":
                 if owner != w[0]:
                     return True
@@ -201,6 +218,9 @@ class C20(Prop):
             elif depth > 0 and owner != w[0]:
                 return True
         return False
+
+    # for schedules whose brackets do not overlap the model IS the serial semantics: a difference is a failing input
+    spec_is_oracle = True
 
     def agree(self, batch, name, lines, mout, io):
         if lines and lines[0].startswith("stress") and "unlocked" in lines[0]:
